@@ -3,6 +3,7 @@
 from __future__ import annotations
 
 from decimal import Decimal
+from decimal import InvalidOperation
 from operator import getitem
 from typing import TYPE_CHECKING
 from typing import Any
@@ -80,16 +81,22 @@ class SumFilter:
         """Apply the filter and return the result."""
         left = sequence_arg(left)
 
-        if isinstance(key, LambdaExpression):
-            rv = sum(
-                decimal_arg(item, 0)
-                for item in key.map(context, left)
-                if not is_undefined(item)
-            )
-        elif key is not None and not is_undefined(key):
-            rv = sum(decimal_arg(_getitem(elem, key, 0), 0) for elem in left)
-        else:
-            rv = sum(decimal_arg(elem, 0) for elem in left)
+        try:
+            if isinstance(key, LambdaExpression):
+                rv = sum(
+                    decimal_arg(item, 0)
+                    for item in key.map(context, left)
+                    if not is_undefined(item)
+                )
+            elif key is not None and not is_undefined(key):
+                rv = sum(decimal_arg(_getitem(elem, key, 0), 0) for elem in left)
+            else:
+                rv = sum(decimal_arg(elem, 0) for elem in left)
+        except InvalidOperation as err:
+            # inf + -inf, or a signalling nan
+            raise LiquidTypeError(
+                "sum is not defined for these numbers", token=None
+            ) from err
 
         if isinstance(rv, Decimal):
             return float(rv)
